@@ -58,6 +58,7 @@ func (c12) Gen(r *core.Rng, tier string, idx int) *core.Trace {
 	t.Cfg["layout"] = int64(r.PickW(40, 30, 30))
 	t.Cfg["lss"] = core.PickOf[int64](r, 512, 512, 512, 2048, 4096)
 	t.Cfg["size"] = c12Sizes[r.Intn(len(c12Sizes))] + 512*r.Range(0, 3)
+	t.Cfg["gptidx"] = core.PickOf[int64](r, 1, 1, 2, 3, 5, 128) // GPT layout: the slot of the (only) partition - tables with gaps
 	if r.Chance(25) {
 		// FAT type boundary sweep: consecutive sector counts around the sizes at which the cluster count crosses
 		// 4085 (FAT12|FAT16) and 65525 (FAT16|FAT32), for every plausible sectors-per-cluster value
@@ -76,7 +77,7 @@ func (c12) Gen(r *core.Rng, tier string, idx int) *core.Trace {
 	n := r.PickW(8, 42, 35, 15)
 	for i := 0; i < n; i++ {
 		ty := c12Types[r.Intn(len(c12Types))]
-		t.Ops = append(t.Ops, core.Op{K: "mkfs", P: ty, S: core.PickOf(r, "LBL", "My Label", "X", "ELEVENCHARS", ""), A: int64(r.U64() >> 2), B: core.PickOf[int64](r, 2048, 4096)})
+		t.Ops = append(t.Ops, core.Op{K: "mkfs", P: ty, S: core.PickOf(r, "LBL", "My Label", "X", "ELEVENCHARS", "", "SIXTEEN_CHARS_16", "FIFTEEN_CHARS_1"), A: int64(r.U64() >> 2), B: core.PickOf[int64](r, 2048, 4096)})
 	}
 	return t
 }
@@ -227,6 +228,11 @@ func (p c12) Exec(t *core.Trace) *core.Result {
 		devSize = partStart + size + 1<<20
 		part = 1
 	}
+	if layout == 1 {
+		if gi := int(t.I("gptidx")); gi >= 1 && gi <= 128 {
+			part = gi
+		}
+	}
 	d := simdisk.New(devSize)
 	dk := &disk.Disk{Backend: d, Size: devSize, LogicalBlocksize: lss, PhysicalBlocksize: lss, DefaultBlocks: lss == 512}
 	wantTable := ""
@@ -236,7 +242,7 @@ func (p c12) Exec(t *core.Trace) *core.Result {
 	case 1:
 		res.Probe("layout-gpt")
 		wantTable = "gpt"
-		sp := gptSpec{GUID: "AAAAAAAA-BBBB-CCCC-DDDD-EEEEEEEEEEEE", Parts: []gptPart{{Index: 1, Start: uint64(partStart / lss), End: uint64((partStart+size)/lss) - 1, Type: knownTypes[1], GUID: "AAAAAAAA-BBBB-CCCC-DDDD-000000000001", Name: "p1"}}}
+		sp := gptSpec{GUID: "AAAAAAAA-BBBB-CCCC-DDDD-EEEEEEEEEEEE", Parts: []gptPart{{Index: part, Start: uint64(partStart / lss), End: uint64((partStart+size)/lss) - 1, Type: knownTypes[1], GUID: "AAAAAAAA-BBBB-CCCC-DDDD-000000000001", Name: "p1"}}}
 		if err := dk.Partition(sp.table(int(lss), int(lss))); err != nil {
 			res.Evals = 1
 			return res
